@@ -133,6 +133,8 @@ def _main(prop, mod, modname, tier, seed, replay, ncases, no_prove, workdir, t0)
         disc = mod.compare(c, res, m)
         if getattr(mod, "INPUT_CONTRACT", False):
             disc = fw.input_contract(c, res) + list(disc)
+        if isinstance(res, dict) and res.get("frames_altered"):
+            disc = list(disc) + [f"the analysis altered the loaded trace it was given (rank, what): {res['frames_altered'][:2]}"]
         for k, v in tracegen.features(c).items():
             hist[k] = hist.get(k, 0) + v
         if mod.nontrivial(c, res):
